@@ -719,6 +719,10 @@ struct RevokeCase {
     passcode: u32,
     /// per attempt: true = right passcode
     attempts: Vec<bool>,
+    /// for attempts with a wrong passcode: the confirmation cA in Pake3 is additionally cut to
+    /// that many bytes on the wire (32 = untouched); a malformed proof is a failed proof too
+    #[serde(default)]
+    ca_len: Vec<u8>,
     seed: u32,
 }
 
@@ -726,11 +730,17 @@ fn revoke_strategy() -> impl Strategy<Value = RevokeCase> {
     (
         passcode_strategy(),
         prop::collection::vec(prop::bool::weighted(0.08), 18..26),
+        prop_oneof![
+            2 => Just(vec![]),
+            1 => prop::collection::vec(prop_oneof![2 => Just(32u8), 1 => Just(31u8), 1 => 0u8..32, 1 => Just(33u8)], 26),
+            1 => prop::sample::select(vec![0u8, 1, 16, 31, 33]).prop_map(|l| vec![l; 26]),
+        ],
         any::<u32>(),
     )
-        .prop_map(|(passcode, attempts, seed)| RevokeCase {
+        .prop_map(|(passcode, attempts, ca_len, seed)| RevokeCase {
             passcode,
             attempts,
+            ca_len,
             seed,
         })
 }
@@ -745,6 +755,32 @@ fn check_revoke(case: &RevokeCase) -> Case {
     let init = vh::sim::node::new_matter(5541);
     let result: RefCell<Option<bool>> = RefCell::new(None);
     let last_err: RefCell<String> = RefCell::new(String::new());
+    // length the cA of the current attempt is cut/extended to on the wire (None = untouched)
+    let cut_ca: std::rc::Rc<std::cell::Cell<Option<u8>>> = std::rc::Rc::new(std::cell::Cell::new(None));
+    {
+        let cut_ca = cut_ca.clone();
+        net.set_adversary(move |s: &Sent| -> Actions {
+            if let (Some(len), Some((w, off))) = (cut_ca.get(), mutate::payload_offset(&s.bytes)) {
+                if s.src == 1 && w.proto_id == PROTO_ID_SECURE_CHANNEL && w.opcode == OP_PAKE3 {
+                    // Pake3 = 15 30 01 <len> <cA> 18
+                    if let Some((vo, vl)) = mutate::tlv_string_values(&w.payload).first().copied() {
+                        if vl == 32 && vo >= 1 {
+                            let mut p = w.payload[..vo - 1].to_vec();
+                            p.push(len);
+                            let mut ca = w.payload[vo..vo + vl].to_vec();
+                            ca.resize(len as usize, 0x5a);
+                            p.extend_from_slice(&ca);
+                            p.extend_from_slice(&w.payload[vo + vl..]);
+                            let mut out = s.bytes[..off].to_vec();
+                            out.extend_from_slice(&p);
+                            return vec![(0, out)];
+                        }
+                    }
+                }
+            }
+            vec![(0, s.bytes.clone())]
+        });
+    }
     let mut failed = 0u32;
     let mut attempts_not_ok = 0u32;
     let mut pake2_seen = 0usize;
@@ -773,6 +809,7 @@ fn check_revoke(case: &RevokeCase) -> Case {
             }
             *result.borrow_mut() = None;
             let pc = if *right { case.passcode } else { case.passcode ^ (1 << (k % 20)) };
+            cut_ca.set(if *right { None } else { case.ca_len.get(k).copied().filter(|l| *l != 32) });
             let (m, c, res, le) = (&init, &ci, &result, &last_err);
             let t = ex.spawn("attempt", async move {
                 let r = async {
@@ -874,7 +911,7 @@ fn main() {
     run.assume("a mutation counts only if the mutated copy was the first copy of that message counter consumed by the receiving stack");
     let n = run.cases(4_000, 300_000);
     run.prop("pase-adversarial", n, case_strategy, check);
-    let n = run.cases(150, 6_000);
+    let n = run.cases(400, 12_000);
     run.prop("failure-accounting", n, revoke_strategy, check_revoke);
     run.finish();
 }
